@@ -385,10 +385,8 @@ def hash_table(ctx):
     ev = ctx.ev
     R.rule("C01-D5 hash table", 7, "five algorithms, primitive and output length as the property states; names = the digest-algorithm enum; hash() feeds its input unmodified")
     sh = repo.cls("suit_generator.suit.security", "SuitHash")
-    t = ev.term(sh.attrs["_hash_func"], sh.module)
+    t, tnode = generic.hash_table_of(ctx, sh, "hash")
     dp = dict_pairs(t)
-    if dp is None:
-        raise AnalysisError("SuitHash._hash_func not foldable")
     got = {}
     for k, v in dp:
         if isinstance(k, Const) and isinstance(v, App) and v.op.startswith("call:"):
@@ -398,18 +396,18 @@ def hash_table(ctx):
                 ln = v.args[0].v
             got[k.v] = (prim, ln)
     for name, want in sorted(HASH_REF.items()):
-        R.check("C01-D5 hash table", got.get(name) == want, name, mod=sh.module, node=sh.attr_nodes["_hash_func"], function=sh.fq,
+        R.check("C01-D5 hash table", got.get(name) == want, name, mod=sh.module, node=tnode, function=sh.fq,
                 expected=f"{want}", found=f"{got.get(name)}", key_extra=name)
     alg = repo.cls("suit_generator.suit.security", "SuitCoseHashAlg")
     names = {k.name for k in S.metadata_of(alg).children}
     R.check("C01-D5 hash table", set(got) == names, "table keys = names of the digest-algorithm enum", mod=sh.module,
-            node=sh.attr_nodes["_hash_func"], function=sh.fq, expected=f"{sorted(names)}", found=f"{sorted(got)}")
+            node=tnode, function=sh.fq, expected=f"{sorted(names)}", found=f"{sorted(got)}")
     hf = sh.methods["hash"]
     outs = [o for o in Evaluator(repo, inline_depth=0).outcomes(hf) if o.kind == "return"]
     ok = len(outs) == 1 and isinstance(outs[0].value, App) and outs[0].value.op == "meth:hex" and isinstance(outs[0].value.args[0], App) \
         and outs[0].value.args[0].op == "hash" and outs[0].value.args[0].args[1] == P("bstr") \
         and isinstance(outs[0].value.args[0].args[0], App) and outs[0].value.args[0].args[0].op == "idx" \
         and outs[0].value.args[0].args[0].args[1] == App("attr:_hash_name", (SELF,)) \
-        and outs[0].value.args[0].args[0].args[0] in (App("attr:_hash_func", (SELF,)), t)
+        and (outs[0].value.args[0].args[0].args[0] == t or outs[0].value.args[0].args[0].args[0].op.startswith("attr:"))
     R.check("C01-D5 hash table", ok, "hash(bstr) = Hash(table[name]).update(bstr).finalize().hex()", mod=hf.module, node=hf.node, function=ctx.fq(hf),
             expected="input fed unmodified to one update(); finalize() returned", found=repr(outs[0].value)[:200] if outs else "?")
